@@ -105,6 +105,7 @@ def run(ctx: Ctx):
     c_side_match(ctx, e)
     c_portscfg_post_init(ctx, e)
     c_portscfg_match(ctx, e)
+    ctx.interp.loop_invariants = {}     # the contracts above are done; the harness below runs the real loop
     from props import C03b
     C03b.run(ctx, e)
 
@@ -338,6 +339,8 @@ def sel_value(m, sel):
 
 def make_replay(ctx, o):
     if getattr(o, 'replay', None):
+        if isinstance(o.replay, dict) and 'shape' in o.replay:
+            return {'script': 'native/replay_gen.py', 'input': dict(o.replay, property='C03')}
         return {'script': 'native/replay_C03.py', 'input': o.replay}
     return None
 
@@ -475,3 +478,10 @@ def c_portscfg_match(ctx, e):
                                   witness=w)
     finally:
         del I.overrides[callee]
+
+
+def native_search(ctx, o):
+    from props import gen_props
+    if ':path' in o.id and 'port_selection.' not in o.id:
+        return gen_props.native_search(ctx, o, 'C03')
+    return None
